@@ -62,6 +62,15 @@ ASSUMPTIONS = [
 SHARDS = {"quick": 4, "thorough": 16}
 
 LOGGER = logging.getLogger("enspara.cluster.kcenters")
+
+# libdist's kernels are OpenMP loops; with the default of one thread per core a distance call on a dozen frames
+# costs ~0.5 s on a loaded machine (spinning barriers) against 3 us single-threaded. The thread count is a
+# dimension of C13, not of this property, so it is pinned to 1 for this process.
+try:
+    from threadpoolctl import threadpool_limits
+    _OMP_PIN = threadpool_limits(limits=1, user_api="openmp")
+except Exception:                                   # pragma: no cover
+    _OMP_PIN = None
 LIB_METRICS = ("euclidean", "manhattan", "cityblock")
 CALLABLE_METRICS = ("chebyshev", "sqrt_l1")
 INT_DTYPES = ("int32", "int64")
@@ -141,7 +150,8 @@ def call_lib(case, n_clusters="case", cutoff="case", tri="case", entry="case"):
     entry = case["entry"] if entry == "case" else entry
     metric = metric_obj(case["metric"])
     cap = _Cap(len(X) + 2)
-    old = (LOGGER.level, LOGGER.propagate)
+    old = (LOGGER.level, LOGGER.propagate, logging.root.manager.disable)
+    logging.disable(logging.NOTSET)      # vf.env silences INFO globally; this logger is captured, not printed
     LOGGER.addHandler(cap)
     LOGGER.setLevel(logging.INFO)
     LOGGER.propagate = False
@@ -168,6 +178,7 @@ def call_lib(case, n_clusters="case", cutoff="case", tri="case", entry="case"):
         LOGGER.removeHandler(cap)
         LOGGER.setLevel(old[0])
         LOGGER.propagate = old[1]
+        logging.disable(old[2])
     logged = [float(a[1]) for (m, a) in cap.records
               if isinstance(m, str) and m.startswith("Center %s gives max dist") and a and len(a) >= 2]
     return res, logged
@@ -315,11 +326,16 @@ def kc_case(draw, max_small=14, max_bulk=40, bulk_share=4, init_kinds=("none", "
         dtype = draw(st.sampled_from(INT_DTYPES + ("float64", "float32") if values == "lattice"
                                      else ("float64", "float64", "float32")))
     site = st.tuples(*([st.integers(lo, hi)] * d))
-    bulk = max_bulk > max_small and metric != "hamming" and draw(st.integers(0, bulk_share - 1)) == 0
+    # (the bulk branch is the *largest* value of its switch and n starts at 1, so that shrinking can both shorten a
+    # bulk set and leave the bulk branch)
+    bulk = (max_bulk > max_small and metric != "hamming"
+            and draw(st.integers(0, bulk_share - 1)) == bulk_share - 1)
     if bulk:
-        sites = _bulk_sites(draw(st.integers(0, 2 ** 31 - 1)), draw(st.integers(max_small + 1, max_bulk)), d)
+        sites = _bulk_sites(draw(st.integers(0, 2 ** 31 - 1)), draw(st.integers(1, max_bulk)), d)
     else:
-        sites = np.array(draw(st.lists(site, min_size=1, max_size=max_small, unique=True)), dtype=np.int64).reshape(-1, d)
+        nmin = draw(st.sampled_from([1, 2, 4, 6, 8]))         # keeps single-frame data sets rare but reachable
+        sites = np.array(draw(st.lists(site, min_size=min(nmin, max_small), max_size=max_small, unique=True)),
+                         dtype=np.int64).reshape(-1, d)
     A = sites.astype(np.float64)
     if values == "jitter":
         A = A + np.random.RandomState(draw(st.integers(0, 2 ** 31 - 1))).uniform(-0.25, 0.25, size=A.shape)
@@ -676,22 +692,22 @@ def exhaustive_stop(tier, shard, nshards):
 _GEN = dict(init_kinds=("none", "none", "frames", "frames", "points"))
 
 CLAUSES = [
-    Clause("start", kc_case(**_GEN), run_start, quick=700, thorough=8000),
-    Clause("farthest", kc_case(**_GEN), run_farthest, quick=900, thorough=8000),
-    Clause("monotone", kc_case(**_GEN), run_monotone, quick=400, thorough=4000),
+    Clause("start", kc_case(**_GEN), run_start, quick=1500, thorough=20000),
+    Clause("farthest", kc_case(**_GEN), run_farthest, quick=2500, thorough=40000),
+    Clause("monotone", kc_case(**_GEN), run_monotone, quick=1000, thorough=15000),
     Clause("two_approx", kc_case(max_small=12, max_bulk=0, init_kinds=("none", "none", "frames"),
-                                 single_frame_init=True), run_two_approx, quick=500, thorough=0),
+                                 single_frame_init=True), run_two_approx, quick=1200, thorough=0),
     Clause("two_approx_14", kc_case(max_small=14, max_bulk=0, init_kinds=("none", "none", "frames"),
-                                    single_frame_init=True), run_two_approx, quick=0, thorough=8000),
-    Clause("stop", kc_case(**_GEN), run_stop, quick=1200, thorough=10000, exhaustive=exhaustive_stop),
+                                    single_frame_init=True), run_two_approx, quick=0, thorough=20000),
+    Clause("stop", kc_case(**_GEN), run_stop, quick=3000, thorough=60000, exhaustive=exhaustive_stop),
     Clause("stop_warm_noop", kc_case(init_kinds=("frames", "frames", "points"), immediate="only"),
-           run_stop_warm_noop, quick=400, thorough=4000),
-    Clause("shortcut", kc_case(init_kinds=("none", "frames"), tri=True), run_shortcut, quick=900, thorough=8000),
-    Clause("shortcut_offdata", kc_case(init_kinds=("points",), tri=True), run_shortcut, quick=500, thorough=4000),
-    Clause("farthest_large", kc_case(max_bulk=200, bulk_share=1, **_GEN), run_farthest, quick=0, thorough=1500),
-    Clause("stop_large", kc_case(max_bulk=200, bulk_share=1, **_GEN), run_stop, quick=0, thorough=1500),
+           run_stop_warm_noop, quick=800, thorough=10000),
+    Clause("shortcut", kc_case(init_kinds=("none", "frames"), tri=True), run_shortcut, quick=2500, thorough=40000),
+    Clause("shortcut_offdata", kc_case(init_kinds=("points",), tri=True), run_shortcut, quick=1200, thorough=20000),
+    Clause("farthest_large", kc_case(max_bulk=200, bulk_share=1, **_GEN), run_farthest, quick=0, thorough=4000),
+    Clause("stop_large", kc_case(max_bulk=200, bulk_share=1, **_GEN), run_stop, quick=0, thorough=4000),
     Clause("shortcut_large", kc_case(max_bulk=200, bulk_share=1, init_kinds=("none", "frames"), tri=True),
-           run_shortcut, quick=0, thorough=1500),
+           run_shortcut, quick=0, thorough=4000),
 ]
 
 
